@@ -74,8 +74,8 @@ fn bases() -> Vec<Base> {
 }
 
 pub fn run(mut run: Run) -> i32 {
-    let w: i64 = run.ctx.pick(96, 768);
-    run.rule = "for each of 14 ill-conditioned base configurations the query point ranges over ALL w x w points of the ulp lattice around the window centre (quick w=96, thorough w=768): \
+    let w: i64 = run.ctx.pick(192, 1536);
+    run.rule = "for each of 14 ill-conditioned base configurations the query point ranges over ALL w x w points of the ulp lattice around the window centre (quick w=192, thorough w=1536): \
         orient2d (f64 and f32), Line intersects Coord, Line intersects Line, line_intersection is_some, coord_pos_relative_to_ring, Polygon/Triangle/Rect coordinate_position and contains, winding_order, \
         quick_hull/graham_hull vertex sets, all against exact big-integer arithmetic on the dyadic values; integer kernels on all lattice triples at large magnitude; \
         distinct_nontrivial = number of window points where the naive f64 determinant has the wrong sign (the inputs where robustness matters)"
@@ -176,7 +176,7 @@ pub fn run(mut run: Run) -> i32 {
     // rounding of the two products; (i',j') = (i+a, j-round(aY)+b) keeps the two products within a few ulps of each other.
     // All (i,j,a,b) of a window x 9 (tx,ty) x 2 magnitudes are enumerated.
     {
-        let wf: i64 = run.ctx.pick(16, 48);
+        let wf: i64 = run.ctx.pick(24, 80);
         let ts = [0.49f64, 0.47, -0.49];
         let (na, nb) = (5i64, 9i64); // a in -2..=2, b in -4..=4
         let n4 = (wf * wf * na * nb) as usize;
